@@ -32,6 +32,7 @@ inductive Ev
   | run (k what : Nat)              -- user-visible work on c: `c.Next()`, `handler(c)`, `c.NotFound()`, any other method call on c
   | wuse (what : Nat)               -- the tracked response writer is the receiver or an argument of a call
   | loopBegin (k : Nat) | loopEnd (k : Nat)  -- bracket one representative iteration of a loop that mentions context k
+  | op (code : Nat)                 -- a recognised call of the app-layer skeletons (Gen/ObsApp.lean prints the code table)
   deriving DecidableEq, Repr
 
 /-- statement skeleton: events, branching on abstract atoms (one fresh atom per `if` occurrence),
